@@ -479,6 +479,25 @@ def typing_programs():
                                           Let("w", I(0)), While(Bin("<", V("w"), I(3)), Block([Expr(Asg(V("w"), I(1), "+=")), Expr(If(Bin("==", V("w"), I(2)), Block([Continue()])))])),
                                           For("c", S("ab"), Block([Print(V("c"))])), For("i", Range(I(0), I(2)), Block([Print(V("i"))])),
                                           Let("m", Match(B(True), [([B(True)], I(1))], I(2))), Print(V("m"))]))})
+    # which loop a break belongs to: a `loop` that only contains breaks of inner for / while loops still diverges
+    inner_for = For("k", Range(I(0), I(3)), Block([Expr(If(Bin("==", V("k"), V("n")), Block([Break()])))]))
+    inner_while = While(B(True), Block([Break()]))
+    for name, inner in (("for", [inner_for]), ("while", [inner_while]), ("both", [inner_for, inner_while])):
+        add("loop_owner_" + name,
+            {"find": Fn(["n"], Block([Let("i", I(0)), Loop(Block(inner + [Expr(If(Bin(">", V("i"), V("n")), Block([Ret(V("i"))]))),
+                                                                          Expr(Asg(V("i"), I(1), "+="))]))]), "int"),
+             "main": Fn([], Block([Print(Call("find", I(2)))]))})
+    # ... also when the inner loop stands in an earlier function
+    add("loop_owner_earlier",
+        {"scan": Fn(["n"], Block([For("k", Range(I(0), I(9)), Block([Expr(If(Bin("==", V("k"), V("n")), Block([Break()])))])),
+                                  While(B(True), Block([Break()]))]), "null"),
+         "spin": Fn(["n"], Block([Let("i", I(0)), Loop(Block([Expr(If(Bin(">", V("i"), V("n")), Block([Ret(V("i"))]))), Expr(Asg(V("i"), I(1), "+="))]))]), "int"),
+         "main": Fn([], Block([Expr(Call("scan", I(2))), Print(Call("spin", I(2)))]))})
+    # ... and the other way round: a break of the outer `loop` inside an inner for does not end the for's owner
+    add("loop_owner_outer_break",
+        {"f": Fn(["n"], Block([Let("i", I(0)), Loop(Block([For("k", Range(I(0), I(2)), Block([Expr(Asg(V("i"), I(1), "+="))])),
+                                                            Expr(If(Bin(">", V("i"), V("n")), Block([Break()])))])), Ret(V("i"))]), "int"),
+         "main": Fn([], Block([Print(Call("f", I(3)))]))})
     add("globals", {"bump": Fn([], Block([Expr(Asg(V("cnt"), I(1), "+=")), Expr(MCall(V("names"), "push", S("x")))]), "null"),
                     "main": Fn([], Block([Expr(Call("bump")), Print(V("cnt"), V("names"), Mem(V("conf"), "depth"), V("ratio"), V("limit"))]))},
         globs=[("cnt", I(0)), ("names", List(S("a"))), ("conf", Obj(depth=I(2), tag=S("t"))), ("ratio", Bin("/", F(1, 0), F(2, 0))), ("limit", Un("-", I(5)))])
